@@ -8,6 +8,7 @@
   regenerated from /repo's cstruct.py, utils.py and wchar.py on every run.
 -/
 import Proofs.Lemmas.C05
+import Proofs.Lemmas.C05Wchar
 
 namespace Cstruct.C05
 open Cstruct
@@ -80,6 +81,34 @@ theorem c05_leb_minimal (s : Bool) (v : Int) (hv : s = false → 0 ≤ v) (bs : 
 theorem c05_leb_truncated (s : Bool) (bs : Bytes) (h : ∀ b ∈ bs, b.toNat ≥ 128) : lebRead s bs = .error .eof := by
   exact Lemmas.leb_truncated s bs h
 
+/-- the other byte order of a UTF-16 byte string: the two bytes of every 16-bit unit swapped -/
+abbrev swapPairs : Bytes → Bytes := Lemmas.swapPairs
+
+/-- wchar: encoding a well-formed string of UTF-16 code units and decoding the result returns the string, in either byte
+    order, and the encoding has exactly two bytes per unit. -/
+theorem c05_wchar_roundtrip (e : Endian) (us : List Nat) (hu : ∀ u ∈ us, u < 65536) (hw : utf16Ok us = true) :
+    ∃ bs, encodeWchar e us = .ok bs ∧ bs.length = 2 * us.length ∧ decodeWchar e bs = .ok (.wstr us) := by
+  exact Lemmas.wchar_roundtrip e us hu hw
+
+/-- wchar: decoding then encoding returns the bytes ("the exact inverse"); what the decoder returns are 16-bit units,
+    two bytes each. -/
+theorem c05_wchar_roundtrip_bytes (e : Endian) (bs : Bytes) (us : List Nat) (h : decodeWchar e bs = .ok (.wstr us)) :
+    encodeWchar e us = .ok bs ∧ bs.length = 2 * us.length ∧ ∀ u ∈ us, u < 65536 := by
+  exact Lemmas.wchar_roundtrip_bytes e bs us h
+
+/-- A lone surrogate is an encoding error, never a repaired or truncated string. -/
+theorem c05_wchar_reject (e : Endian) (us : List Nat) (hw : utf16Ok us = false) : encodeWchar e us = .error .unicode := by
+  exact Lemmas.wchar_reject e us hw
+
+/-- An odd number of bytes is a decoding error, never a truncated string. -/
+theorem c05_wchar_odd (e : Endian) (bs : Bytes) (h : bs.length % 2 = 1) : decodeWchar e bs = .error .unicode := by
+  exact Lemmas.wchar_odd e bs h
+
+/-- "In that byte order": the big-endian encoding is the little-endian one with the two bytes of every unit swapped. -/
+theorem c05_wchar_byte_order (us : List Nat) (bsl bsb : Bytes) (hl : encodeWchar .little us = .ok bsl)
+    (hb : encodeWchar .big us = .ok bsb) : bsb = swapPairs bsl := by
+  exact Lemmas.wchar_byte_order us bsl bsb hl hb
+
 def isPow2 (n : Nat) : Bool := n ≠ 0 && n &&& (n - 1) = 0
 
 /-- The built-in type table as the code has it now: every type's `size` is the width of its class, every alignment is a
@@ -113,5 +142,17 @@ theorem c05_endian_tables :
 example : fits 3 true (-8388608) = true ∧ fits 3 true 8388608 = false := by decide
 example : encodeInt .big 2 false 0x1234 = some [0x12, 0x34] := by decide
 example : decodeInt .little true [0xff, 0xff, 0x7f] = 8388607 := by decide
+
+example : encodeWchar .little [0x41, 0xD83D, 0xDE00] = .ok [0x41, 0x00, 0x3D, 0xD8, 0x00, 0xDE] ∧
+    encodeWchar .big [0x41, 0xD83D, 0xDE00] = .ok [0x00, 0x41, 0xD8, 0x3D, 0xDE, 0x00] ∧
+    swapPairs [0x41, 0x00, 0x3D, 0xD8, 0x00, 0xDE] = [0x00, 0x41, 0xD8, 0x3D, 0xDE, 0x00] ∧
+    utf16Ok [0x41, 0xD83D, 0xDE00] = true ∧ (∀ u ∈ [0x41, 0xD83D, 0xDE00], u < 65536) := by decide +kernel
+example : decodeWchar .little [0x41, 0x00, 0x3D, 0xD8, 0x00, 0xDE] = .ok (.wstr [0x41, 0xD83D, 0xDE00]) ∧
+    decodeWchar .big [0x00, 0x41, 0xD8, 0x3D, 0xDE, 0x00] = .ok (.wstr [0x41, 0xD83D, 0xDE00]) := by
+  exact ⟨rfl, rfl⟩  -- `Val` has no `DecidableEq`; both sides evaluate to the same term
+example : utf16Ok [0x41, 0xD83D] = false ∧ utf16Ok [0xDE00, 0xD83D] = false ∧
+    encodeWchar .big [0xDE00, 0xD83D] = .error .unicode := by decide +kernel
+example : decodeWchar .little [0x3D, 0xD8] = .error .unicode ∧ decodeWchar .little [0x41, 0x00, 0x3D] = .error .unicode := by
+  exact ⟨rfl, rfl⟩  -- `Val` has no `DecidableEq`; both sides evaluate to the same term
 
 end Cstruct.C05
